@@ -182,6 +182,12 @@ def run_rules(P, rules):
     results = []
     for rule in rules:
         fn, kw = (rule, {}) if not isinstance(rule, tuple) else rule
+        # rules are functions of the program only: one Program object shares their results between properties (--all, reports)
+        cache = P.__dict__.setdefault("_rule_cache", {})
+        ck = (fn.__module__, fn.__name__, repr(sorted(kw.items())))
+        if ck in cache:
+            results.extend(cache[ck])
+            continue
         rs = _run_one(P, fn, kw)
         if any(not o.ok for rr in rs for o in rr.obs):
             # Other views of the same program (sa/inline.py: single-assignment temporaries replaced by their definitions, extracted
@@ -199,6 +205,7 @@ def run_rules(P, rules):
                                 + "; ".join(f"{m.rel}: {l}" for m in P2.modules.values() for l in m.transform_log)[:1200])
                     rs = rs2
                     break
+        cache[ck] = rs
         results.extend(rs)
     return results
 
